@@ -100,7 +100,7 @@ class _BipGroup:
         rows = v[1]
         if isinstance(rows, Ref) and isinstance(c.deref(rows), HList) and isinstance(I.a, int):
             items = c.deref(rows).items
-            yield "ensures.rows.count", len(items) == max(0, I.b - I.a)
+            yield "ensures.rows.count", len(items) == max(0, I.b - I.a) and c.deref(rows).base is None
             for off, row in enumerate(items[:5]):
                 j = I.a + off
                 badj, kj, ccj, _ = spec_derive_prv(kc, ccc, [j])
